@@ -768,3 +768,158 @@ func runErrSentinel(c *core.Ctx) {
 	}
 	_ = load.Package{}
 }
+
+// ------------------------------------------------------------------ ASYNC-JOIN
+
+func init() {
+	register(&core.Rule{ID: "ASYNC-JOIN", Props: []string{"C01", "C06"}, Floor: 10,
+		Doc: "a resource's PreCommit/Commit/Abort that does its work in a goroutine returns (non-nil) the channel that goroutine signals on every normal exit, and nothing observable happens in the goroutine after that signal - so the next section cannot start while the previous one is still taking effect",
+		Run: runAsyncJoin})
+}
+
+func sameChanExpr(info *types.Info, a, b ast.Expr) bool {
+	if oa, ob := an.ObjOf(info, a), an.ObjOf(info, b); oa != nil && oa == ob {
+		return true
+	}
+	if fa, fb := an.SelectedField(info, a), an.SelectedField(info, b); fa != nil && fa == fb {
+		return true
+	}
+	return false
+}
+
+func runAsyncJoin(c *core.Ctx) {
+	e := EnvOf(c.Prog)
+	iface := resourceIface(c, e)
+	if iface == nil {
+		return
+	}
+	val := tlaValue(e)
+	for _, ri := range resourceImpls(e, iface) {
+		tk := an.TypeKey(ri.named)
+		for _, m := range []string{"PreCommit", "Commit", "Abort"} {
+			f := ri.methods[m]
+			if f == nil || !ri.own[m] {
+				continue
+			}
+			info := f.Pkg.Info
+			g := e.Graph(f)
+			gos := g.FindAtoms(func(a ast.Node) bool { _, ok := a.(*ast.GoStmt); return ok })
+			// also goroutines started inside nested blocks are atoms of this graph; nested literals are not descended
+			for i, gs := range gos {
+				key := fmt.Sprintf("%s.%s:go#%d", tk, m, i+1)
+				lit, ok := an.Unparen(gs.(*ast.GoStmt).Call.Fun).(*ast.FuncLit)
+				if !ok {
+					c.Undecided(key, gs.Pos(), "goroutine body is not a function literal")
+					continue
+				}
+				// returns reachable after the go statement
+				var retExprs []ast.Expr
+				nilRet := false
+				p := g.Search(an.Query{From: gs, Target: func(a ast.Node) bool {
+					if r, ok := a.(*ast.ReturnStmt); ok && len(r.Results) == 1 {
+						if isNilIdent(info, r.Results[0]) {
+							nilRet = true
+						} else {
+							retExprs = append(retExprs, r.Results[0])
+						}
+					}
+					return false
+				}})
+				_ = p
+				if nilRet || len(retExprs) == 0 {
+					c.Bad(key, gs.Pos(), "%s.%s starts a goroutine but can return nil afterwards: the driver treats the operation as complete and starts the next section while this one is still taking effect (later effects can overtake earlier ones)", tk, m)
+					continue
+				}
+				lg := e.GraphOfLit(f.Pkg, lit)
+				isSend := func(a ast.Node) bool {
+					s, ok := a.(*ast.SendStmt)
+					if !ok {
+						return false
+					}
+					for _, r := range retExprs {
+						if sameChanExpr(info, s.Chan, r) {
+							return true
+						}
+					}
+					return false
+				}
+				// closures that always signal: local `name := func() {...}` literals and literals passed as call arguments
+				alwaysSignals := func(l *ast.FuncLit) bool {
+					ok, _ := e.GraphOfLit(f.Pkg, l).MustPass(nil, isSend, nil)
+					return ok
+				}
+				signalling := map[types.Object]bool{}
+				ast.Inspect(lit.Body, func(n ast.Node) bool {
+					if as, ok := n.(*ast.AssignStmt); ok && len(as.Lhs) == 1 && len(as.Rhs) == 1 {
+						if l, ok := an.Unparen(as.Rhs[0]).(*ast.FuncLit); ok && alwaysSignals(l) {
+							if o := an.ObjOf(info, as.Lhs[0]); o != nil {
+								signalling[o] = true
+							}
+						}
+					}
+					return true
+				})
+				isSignal := func(a ast.Node) bool {
+					if isSend(a) {
+						return true
+					}
+					call, ok := a.(*ast.CallExpr)
+					if !ok {
+						return false
+					}
+					if o := an.ObjOf(info, call.Fun); o != nil && signalling[o] {
+						return true
+					}
+					for _, arg := range call.Args {
+						if l, ok := an.Unparen(arg).(*ast.FuncLit); ok && alwaysSignals(l) {
+							return true
+						}
+					}
+					return false
+				}
+				signalled, _ := lg.MustPass(nil, isSignal, nil)
+				if !signalled {
+					c.Bad(key, gs.Pos(), "the goroutine started by %s.%s has a normal exit that does not signal the returned channel: the driver would wait forever (or, with a buffered channel, never learn of completion)", tk, m)
+					continue
+				}
+				// nothing observable after the signal
+				late := false
+				for _, sig := range lg.FindAtoms(isSignal) {
+					q := lg.Search(an.Query{From: sig, Target: func(a ast.Node) bool {
+						switch x := a.(type) {
+						case *ast.SendStmt:
+							if isSignal(a) {
+								return false
+							}
+							if ch, ok := info.TypeOf(x.Chan).Underlying().(*types.Chan); ok && carriesValue(ch.Elem(), val, 0) {
+								return true
+							}
+						case *ast.CallExpr:
+							if name, _, ok := lifecycleCall(info, x, iface); ok && name == m {
+								return true
+							}
+							if fn := an.CalleeFunc(info, x); fn != nil && fn.Pkg() != nil {
+								nm := fn.Pkg().Path() + "." + fn.Name()
+								if rn := an.RecvNamed(fn); rn != nil {
+									nm = fn.Pkg().Path() + "." + rn.Obj().Name() + "." + fn.Name()
+								}
+								if _, ok := sinkCalls[nm]; ok {
+									return true
+								}
+							}
+						}
+						return false
+					}})
+					if q.Found {
+						late = true
+					}
+				}
+				if late {
+					c.Bad(key, gs.Pos(), "the goroutine of %s.%s still publishes / forwards after signalling completion", tk, m)
+				} else {
+					c.Ok(key, gs.Pos(), "joined: returns the channel the goroutine signals on every exit, after all its effects")
+				}
+			}
+		}
+	}
+}
